@@ -459,13 +459,20 @@ def check_woehler(case):
     with warnings.catch_warnings():
         warnings.simplefilter("ignore")
         try:
-            got = curves.woehler.cycles(load, fp)
+            signal = curves.woehler                     # the signal object is kept: it is an operand of the broadcast, too
+            signal_before = state(signal.to_pandas())
+            got = signal.cycles(load, fp)
+            signal_after = state(signal.to_pandas())
         except Exception as e:                      # noqa: BLE001
             info["raised"] = type(e).__name__
             return ([("C13/%s/raises-%s" % (cls, type(e).__name__), {"message": _msg(e)})] if scope else []), info
     if not scope:
         return [], info
     viol = []
+    d0 = _state_diff(signal_before, signal_after)
+    if d0 is not None:
+        viol.append(("C13/woehler/operand-modified/signal-object-%s" % d0, {"before": signal_before, "after": _stable(signal_after),
+                                                                            "failure_probability_asked": fp}))
     after = (state(curves), state(load))
     for tag, b, a in (("curves", before[0], after[0]), ("load", before[1], after[1])):
         d = _state_diff(b, a)
